@@ -211,6 +211,19 @@ def run(ctx):  # noqa: C901
     fin = rets[-1][2] if rets else None
     okv = fin is not None and fin[0] == "not" and fin[1][0] == "call" and fin[1][1] == "numpy.isclose" and kwarg(fin[1], "atol") == ("n", "tol")
     ctx.ob("R-TOL", hs, "SDP verdict compares with tol as absolute tolerance", bool(okv), "isclose(..., 0, atol=tol)" if okv else "final comparison does not use tol as atol")
+    # two-qubit closed form (level 2, no PPT): sqrt(det rho) of a rank-deficient state needs the clip, and the inequality is an
+    # equality on pure product states, so it has to be compared up to tol (F54)
+    from ..rules import r_domain_clamped
+    r_domain_clamped(ctx, hs)
+    closed = [rn for rn, facts, t in rets if "numpy.linalg.det" in repr(Normalizer(m, hs, inline=True)(rn.value))] if rets else []
+    if closed:
+        t = Normalizer(m, hs, inline=True)(closed[0].value)
+        oktol = t[0] == "cmp" and mentions_name(t, "tol")
+        ctx.ob("R-TOL", hs, "two-qubit closed form is compared up to tol", oktol,
+               "tol enters the inequality" if oktol else
+               f"`{unparse(closed[0].value)[:70]}` is an exact >=: for a pure product state both sides are 1 up to rounding, so about half of them are declared not extendible", closed[0])
+    else:
+        ctx.ob("R-TOL", hs, "two-qubit closed form is compared up to tol", None, "closed-form return not recognised", required=False)
     # F13: a discrimination optimum of a literal ONE-element ensemble is 1 for every input (the single state is always identified), so a
     # verdict computed from it is a constant function -- here `not isclose(1 - min(value, 1), 0)` == False for every rho
     for callee in ("symmetric_extension_hierarchy.symmetric_extension_hierarchy", "state_distinguishability.state_distinguishability", "ppt_distinguishability.ppt_distinguishability"):
